@@ -435,6 +435,16 @@ pub fn flags_arch(kinds: &[String], drop: &[bool]) -> Value {
                 layers.push(json!({"kind": "pool", "kernel": [1, 1], "stride": [1, 1]}));
                 spatial = true;
             }
+            // a feedback block whose layer is a deconvolution (the remaining layer kind a block can hold)
+            "fbd" => {
+                // (after a flat layer a block of spatial layers is not accepted by the library: a dense block there)
+                let inner = if spatial || (i == 0 && first_spatial) {
+                    json!({"kind": "deconv", "filters": 1, "kernel": [3, 3], "stride": [1, 1], "padding": [1, 1], "act": "tanh", "dropout": d})
+                } else {
+                    json!({"kind": "dense", "out": 16, "act": "tanh", "bias": true, "dropout": d})
+                };
+                layers.push(json!({"kind": "feedback", "loops": 2, "acc": "mean", "layers": [inner]}));
+            }
             "fb" => {
                 let inner = if spatial || (i == 0 && first_spatial) {
                     json!({"kind": "conv", "filters": 1, "kernel": [3, 3], "stride": [1, 1], "padding": [1, 1], "act": "tanh", "dropout": d})
@@ -794,7 +804,7 @@ fn net_event(run: usize, spec: &RunSpec) -> Value {
 
 fn driver_archs(rng: &mut Rng) -> Vec<Value> {
     let mut archs = architectures();
-    let kinds_menu = ["dense", "softmax", "conv", "deconv", "pool", "fb"];
+    let kinds_menu = ["dense", "softmax", "conv", "deconv", "pool", "fb", "fbd"];
     for _ in 0..4 {
         let k = rng.range(1, 4) as usize;
         let kinds: Vec<String> = (0..k).map(|_| rng.pick(&kinds_menu).to_string()).collect();
@@ -1256,7 +1266,7 @@ pub fn record_optslots(seed: u64, tier: &str, trace: &mut Vec<Value>, rep: &mut 
                                {"kind": "conv", "filters": 1, "kernel": [3, 3], "stride": [1, 1], "padding": [1, 1], "act": "tanh"}]},
                    {"kind": "dense", "out": 2, "act": "linear", "bias": true}],
         "objective": {"kind": "mse"}, "optimizer": {"kind": "adam", "lr": 0.01}}));
-    let kinds_menu = ["dense", "softmax", "conv", "deconv", "pool", "fb"];
+    let kinds_menu = ["dense", "softmax", "conv", "deconv", "pool", "fb", "fbd"];
     for _ in 0..(if tier == "thorough" { 30 } else { 6 }) {
         let k = rng.range(1, 4) as usize;
         let kinds: Vec<String> = (0..k).map(|_| rng.pick(&kinds_menu).to_string()).collect();
